@@ -15,10 +15,8 @@ AddW(a, b) == LET lo == a[2] + b[2]
                   hi == a[1] + b[1] + (lo \div M16)
               IN <<hi % M16, lo % M16>>
 SubW(a, b) == AddW(a, AddW(NotW(b), <<0, 1>>))
-Pow2(n) == CASE n = 0 -> 1 [] n = 1 -> 2 [] n = 2 -> 4 [] n = 3 -> 8 [] n = 4 -> 16
-             [] n = 5 -> 32 [] n = 6 -> 64 [] n = 7 -> 128 [] n = 8 -> 256 [] n = 9 -> 512
-             [] n = 10 -> 1024 [] n = 11 -> 2048 [] n = 12 -> 4096 [] n = 13 -> 8192
-             [] n = 14 -> 16384 [] n = 15 -> 32768 [] n = 16 -> 65536
+Pow2Table == <<1, 2, 4, 8, 16, 32, 64, 128, 256, 512, 1024, 2048, 4096, 8192, 16384, 32768, 65536, 131072, 262144, 524288, 1048576, 2097152, 4194304, 8388608, 16777216, 33554432, 67108864, 134217728, 268435456, 536870912, 1073741824>>
+Pow2(n) == Pow2Table[n + 1]          \* n in 0..30
 \* rotate left by 0 < n < 32
 RotlSmall(a, n) ==   \* 0 < n < 16
   <<((a[1] * Pow2(n)) % M16) + (a[2] \div Pow2(16 - n)),
